@@ -363,6 +363,15 @@ def handle (j : Json) : E Json := do
     let src ← jStr j "src"
     let id ← jInt (← j.getObjVal? "id")
     pure (Json.mkObj [("model", Json.bool (M.admits mo src id)), ("spec", Json.bool (S.admits mo src id))])
+  | "num_cmp" =>
+    let a ← jValue (← j.getObjVal? "a")
+    let b ← jValue (← j.getObjVal? "b")
+    match a, b with
+    | .num a, .num b =>
+      let mk := fun (lt le gt ge eq : Bool) => Json.mkObj [("lt", Json.bool lt), ("le", Json.bool le), ("gt", Json.bool gt), ("ge", Json.bool ge), ("eq", Json.bool eq)]
+      pure (Json.mkObj [("model", mk (M.numLt a b) (M.numLe a b) (M.numGt a b) (M.numGe a b) (M.numEq a b)),
+                        ("spec", mk (S.numLt a b) (S.numLe a b) (S.numGt a b) (S.numGe a b) (S.numEq a b))])
+    | _, _ => throw "numbers expected"
   | "xpath" =>
     let s ← jStr j "s"
     let r := match M.XPath.parse s with
